@@ -54,7 +54,7 @@ func isNoopCall(name string) bool {
 		}
 	}
 	if strings.HasPrefix(name, "invoke ") {
-		for _, p := range []string{"github.com/prometheus/", "go.uber.org/zap", "go.opencensus.io/"} {
+		for _, p := range []string{"github.com/prometheus/", "go.uber.org/zap", "go.opencensus.io/", " metric/stopwatch.", " metric.", " querytracer.", " tracing."} {
 			if strings.Contains(name, p) {
 				return true
 			}
@@ -357,12 +357,14 @@ func (s *State) contractCall(call *ssa.Call, sp *FuncSpec, fn *ssa.Function, sig
 	nw := s.freshConst("WM", "Int")
 	s.assert(fmt.Sprintf("(>= %s %s)", nw, s.WM))
 	s.WM = nw
-	// frame
+	// frame: every entry denotes a location of the pre-state (evaluate against the snapshot, not against the
+	// heap that the previous entries have already havocked)
+	preSnap := mkEnv(snap.Heap, snap.Cells, snap.Ghost)
 	for _, m := range sp.Modifies {
 		if c.isForeignGhost(strings.TrimSpace(m), s) {
 			continue
 		}
-		s.havocLocation(pre, m, sp)
+		s.havocLocation(preSnap, m, sp)
 	}
 	// results
 	s.bindFreshResult(call, "r_"+sanitize(short))
